@@ -210,7 +210,158 @@ def h_negative(ctx):
     return Outcome(f"{mode}:{'returned' if r.ok else 'rej:' + r.etype}", vs, nontrivial=(family, alg, body, zipv, mode))
 
 
+# ------------------------------------------------------------------ what a caller does with a result must not reach later calls
+EDITS = ["none", "header.pop(typ)", "header[kid]=other", "header.clear()", "claims.clear()", "claims[iss]=evil", "claims nested value edited"]
+
+
+def h_repeated(ctx):
+    """decode, the caller edits the returned Token in place, decode the same token (and another one with an identical header
+    segment) again: every decode must still return what was encoded."""
+    from joserfc import jwt, jwe
+    family, alg, kind = ctx.choose("transport", TRANSPORTS)
+    kform = ctx.choose("key_form", ["key", "set"])
+    edit = ctx.choose("caller_edit", EDITS)
+    edit2 = ctx.deviate("second_edit", ["none"] + EDITS[1:])
+    jwk = scen.key(kind)
+    kid = "issuer-key-1"
+    claims1 = {"iss": "joe", "roles": ["a", {"b": 1}], "n": 1}
+    claims2 = {"iss": "joe", "roles": ["c"], "n": 2}
+    header = {"alg": alg, "kid": kid}
+    if family == "jwe":
+        header["enc"] = "A128GCM"
+    reg = jwe.JWERegistry(algorithms=[alg, "A128GCM"]) if family == "jwe" else None
+    kw = {"registry": reg} if reg else {"algorithms": [alg]}
+    from joserfc.jwk import KeySet
+    mk = lambda private: A.jkey({**(jwk if private or jwk["kty"] == "oct" else rjwk.public_of(jwk)), "kid": kid}, "dict")  # noqa
+    ekey = mk(family == "jws")
+    dkey = mk(family == "jwe")
+    if kform == "set":
+        dkey = KeySet([dkey, A.jkey({**scen.key(kind, 1), "kid": "other"}, "dict")])
+    vs = []
+    toks = []
+    for c in (claims1, claims2):
+        r = call(jwt.encode, dict(header), copy.deepcopy(c), ekey, **kw)
+        if not r.ok:
+            return Outcome("encode-failed", [viol(f"jwt.encode fails ({family})", f"{alg}: {r.exc!r}")], nontrivial=(family, alg, kform, edit))
+        toks.append(r.value)
+    want_hdr = {"typ": "JWT", **header}
+    tag = f"{family} {alg.split('+')[0]}"
+
+    def check(step, tokn, want_claims):
+        d = call(jwt.decode, toks[tokn], dkey, **kw)
+        if not d.ok:
+            vs.append(viol(f"jwt.decode of a valid token fails after the caller edited an earlier result ({family})", f"{tag} key as {kform}, step {step}, edits {edit!r}, {edit2!r}: {d.exc!r}"))
+            return None
+        got = {k: v for k, v in d.value.header.items() if k not in ("epk", "p2s", "p2c", "iv", "tag")}
+        if got != want_hdr:
+            vs.append(viol(f"decoded header differs from the encoded one after the caller edited an earlier result ({family})", f"{tag} key as {kform}, step {step}, edits {edit!r}, {edit2!r}: want {want_hdr} got {got}"))
+        if d.value.claims != want_claims:
+            vs.append(viol(f"decoded claims differ from the encoded ones after the caller edited an earlier result ({family})", f"{tag} key as {kform}, step {step}, edits {edit!r}, {edit2!r}: want {want_claims} got {d.value.claims}"))
+        return d.value
+
+    def apply(e, t):
+        if t is None or e == "none":
+            return
+        if e == "header.pop(typ)":
+            t.header.pop("typ", None)
+        elif e == "header[kid]=other":
+            t.header["kid"] = "other"
+        elif e == "header.clear()":
+            t.header.clear()
+        elif e == "claims.clear()":
+            t.claims.clear()
+        elif e == "claims[iss]=evil":
+            t.claims["iss"] = "evil"
+        else:
+            t.claims["roles"].append("admin")
+    t1 = check("first decode", 0, claims1)
+    apply(edit, t1)
+    t2 = check("second decode of the same token", 0, claims1)
+    apply(edit2, t2)
+    check("decode of another token with the same header", 1, claims2)
+    check("third decode of the first token", 0, claims1)
+    return Outcome(f"{family}:{'ok' if not vs else 'bad'}", vs, nontrivial=(family, alg, kform, edit, edit2))
+
+
+# ------------------------------------------------------------------ E3: two JWT operations at the same time
+def _thread_menu(base):
+    from joserfc import jwt, jwe
+    from joserfc.errors import JoseError
+    family, alg, kind = base
+    kw = {"algorithms": [alg]} if family == "jws" else None
+    claims = {"A": {"iss": "tenant-a", "n": 1}, "B": {"iss": "tenant-b", "n": 2}}
+    which = {"A": 0, "B": 1}
+    toks = {}
+    for t in ("A", "B"):
+        jwk = scen.key(kind, which[t])
+        body = json.dumps(claims[t], separators=(",", ":")).encode()
+        if family == "jws":
+            toks[t] = c16.build_jws(alg, kind, "compact", {"alg": alg, "typ": "JWT"}, None, body) if which[t] == 0 else None
+            seg = b64.enc(rjws.hdr_json({"alg": alg, "typ": "JWT"}).encode())
+            toks[t] = seg + "." + b64.enc(body) + "." + b64.enc(jws_sign(alg, jwk, rjws.signing_input(seg, body, True)))
+        else:
+            toks[t] = rjwe.encrypt({"alg": alg, "enc": "A128GCM", "typ": "JWT"}, body, [{"jwk": jwk if jwk["kty"] == "oct" else rjwk.public_of(jwk)}], rand=rjwe.Drbg(repr((base, t)).encode()))
+
+    def kwargs():
+        return dict(kw) if kw else {"registry": jwe.JWERegistry(algorithms=[alg, "A128GCM"])}
+
+    def enc_op(t):
+        def run(sh):
+            r = call(jwt.encode, {"alg": alg, **({"enc": "A128GCM"} if family == "jwe" else {})}, dict(claims[t]), sh[t], **kwargs())
+            return ("encode", t, r)
+        return (f"encode with the key of tenant {t}", run)
+
+    def dec_op(tok_of, key_of):
+        def run(sh):
+            r = call(lambda: jwt.decode(toks[tok_of], sh[key_of], **kwargs()).claims)
+            return ("decode", tok_of, key_of, r)
+        return (f"decode the token of tenant {tok_of} with the key of tenant {key_of}", run)
+    return [enc_op("A"), enc_op("B"), dec_op("A", "A"), dec_op("B", "B"), dec_op("A", "B")], claims, which
+
+
+THREAD_BASES = [("jws", "HS256", "oct32"), ("jws", "ES256", "P-256"), ("jwe", "dir", "oct16"), ("jwe", "A128KW", "oct16")]
+
+
+def h_threads(ctx):
+    from .. import conc
+    base = ctx.choose("transport", THREAD_BASES)
+    family, alg, kind = base
+    menu, claims, which = _thread_menu(base)
+
+    def shared():
+        return {t: A.jkey(scen.key(kind, which[t]), "dict") for t in ("A", "B")}
+
+    def judge(name, o, sh):
+        r = o[-1]
+        if o[0] == "encode":
+            t = o[1]
+            if not r.ok:
+                return (f"jwt.encode fails while another JWT call runs ({family})", f"{alg}: {r.exc!r}")
+            jwk = scen.key(kind, which[t])
+            try:
+                if family == "jws":
+                    _, p = rjws.verify_compact(r.value, jwk if jwk["kty"] == "oct" else rjwk.public_of(jwk))
+                else:
+                    p = rjwe.decrypt(r.value, jwk)[0]
+            except (RefError, ValueError) as e:
+                return (f"a token encoded while another JWT call runs is not made with the caller's key ({family})", f"{alg} tenant {t}: reference: {e!r}")
+            if json.loads(p) != claims[t]:
+                return (f"a token encoded while another JWT call runs carries other claims ({family})", f"{alg} tenant {t}: {p!r}")
+            return None
+        tok_of, key_of = o[1], o[2]
+        if tok_of != key_of:
+            if r.ok:
+                return (f"jwt.decode accepts a token with the key of another tenant while another JWT call runs ({family})", f"{alg}: token of {tok_of}, key of {key_of}: claims {r.value!r}")
+            return None
+        if not r.ok or r.value != claims[tok_of]:
+            return (f"jwt.decode of a valid token with the matching key fails or returns other claims while another JWT call runs ({family})", f"{alg} tenant {tok_of}: {r.value!r} {r.exc!r}")
+        return None
+    return conc.pairs(ctx, menu, shared, judge, thorough=config.thorough())
+
+
 PARTS = [
     Part("encode-decode", h_roundtrip, split_depth=3, budget={"quick": 120, "thorough": 1800}),
     Part("non-object-payloads", h_negative, split_depth=2),
+    Part("results-edited-by-the-caller", h_repeated, bound={"quick": 1, "thorough": 1}, split_depth=2),
+    Part("thread-schedules", h_threads, bound={"quick": 1, "thorough": 2}, split_depth=2, budget={"quick": 200, "thorough": 3000}, engine="E3"),
 ]
